@@ -47,7 +47,11 @@ CHECKS = {
              "preemptions is executed and every driver call must be made by "
              "the owner of clf.lock, must not overlap another driver call and "
              "must not reach a closed driver.  The evidence lists which of the "
-             "syntactic self.device call sites were reached.",
+             "syntactic self.device call sites were reached.  The same entry "
+             "points also run on the real acr122, pn533 and rcs380 drivers over "
+             "a simulated reader, where every host-link transfer (also of "
+             "threads a driver starts itself) is checked for lock ownership "
+             "and overlap.",
         note="Scheduling points: lock acquisition, sleeps and a point inside "
              "every driver method; 2-3 threads; the proxy driver answers like "
              "a Type 2 tag / FeliCa reader so that connect() runs through "
@@ -219,7 +223,11 @@ CHECKS = {
              "succeeds only with the same password, and every single-bit flip "
              "and byte substitution of every response of authenticate, "
              "read_with_mac and the NDEF read path must be detected (no "
-             "modified octet returned).",
+             "modified octet returned).  Also: histories of authenticate / "
+             "read / write with and without MAC / protect on ONE Lite-S object "
+             "for three write-counter behaviours of the tag model, text "
+             "passwords with characters above U+007F, protect on a tag that "
+             "already holds a key.",
         note="Only the single-block DES primitive (pyDes) is shared with the "
              "library and cross-checked against openssl; not an adaptive "
              "forger."),
@@ -235,7 +243,10 @@ CHECKS = {
              "every distinct state is drained and every collected frame is "
              "measured against the remote Link MIU and the receiver's "
              "connection MIU, and the dispatched PDU sequence is compared with "
-             "the collected one.",
+             "the collected one.  A second BFS starts from prepared states "
+             "(owed acknowledgements, busy toggles, pending DM / SNL / CC with "
+             "RW 0-2, two pending lookups around the exact fit) with sizes "
+             "relative to the room left in the aggregate.",
         note="Depth bound stated in the evidence (frontier not exhausted); "
              "snapshots validated against history replay; raw access points "
              "excluded as the statement says."),
@@ -249,7 +260,10 @@ CHECKS = {
              "addresses and invalid arguments from a small alphabet), started "
              "from the initial state and from prepared states (address ranges "
              "nearly full/full, a name whose socket was closed, a re-used "
-             "address); every transition is compared with ref/addrtable.py.",
+             "address); the peer also asks for several names in one SNL PDU and "
+             "issues a second lookup while the first is outstanding (its "
+             "transaction identifier chosen adversarially); every transition "
+             "is compared with ref/addrtable.py.",
         note="Depth bounds in the evidence; blocking calls run in a virtual "
              "thread while the link is pumped; named-range exhaustion errno "
              "is compared leniently (EADDRNOTAVAIL vs EAGAIN)."),
@@ -261,7 +275,9 @@ CHECKS = {
         text="Real ContactlessFrontend on a scripted recording device: all "
              "target lists of length 1..3 over 9 target kinds x iterations x "
              "an earlier successful sense/listen, each followed by exchange(); "
-             "and connect() for every option subset x environment (none, tag, "
+             "a listen() that finds nobody / is unsupported / has an invalid "
+             "bit rate / fails on the host link after a successful sense or "
+             "listen, followed by exchange(); and connect() for every option subset x environment (none, tag, "
              "LLCP peer, reader) x callback return values (<= 2 non-default) x "
              "the call at which terminate() turns true; callback order, "
              "on-release exactly once per true on-connect, return value class, "
